@@ -29,7 +29,16 @@ import (
 type c12Out struct {
 	Kind string // reply | terr | ub
 	Code int
-	Body string
+	Tok  string // body token as written in the op line ("-" = empty, X<n> = n bytes)
+	Body string // the body the token stands for
+	// Mode says HOW the target transmits a reply (production-client stream; not part of the model):
+	//   d  handler writes the body at once (net/http decides Content-Length / chunked)
+	//   l  explicit Content-Length, body written at once
+	//   q  explicit Content-Length, headers flushed, 10-30 ms pause, then the body
+	//   p  headers flushed, 10-30 ms pause, then the body (chunked)
+	//   c  headers flushed, body in several chunks with a flush after each
+	Mode string
+	Sent int // ub: bytes of the body sent before the connection is cut (-1: the short default)
 }
 
 func (o c12Out) ok() bool { return o.Kind == "reply" && o.Code == 200 }
@@ -37,9 +46,40 @@ func (o c12Out) ok() bool { return o.Kind == "reply" && o.Code == 200 }
 // status is the canonical last-emit status a delivery with this outcome must leave.
 func (o c12Out) status() string {
 	if o.Kind == "reply" {
-		return fmt.Sprintf("%d:%s", o.Code, o.Body)
+		return fmt.Sprintf("%d:%s", o.Code, c12BodyToken(o.Body))
 	}
 	return "err"
+}
+
+func (o c12Out) describe() string {
+	switch o.Kind {
+	case "reply":
+		return fmt.Sprintf("reply %d, body %d bytes, mode %q", o.Code, len(o.Body), o.Mode)
+	case "ub":
+		return fmt.Sprintf("reply %d, body cut off after %d bytes", o.Code, o.Sent)
+	}
+	return "transport error"
+}
+
+// c12BodyFromToken expands a body token: "-" = empty, X<n> = n bytes 'x', anything else literal.
+func c12BodyFromToken(tok string) string {
+	if tok == "-" {
+		return ""
+	}
+	if len(tok) > 1 && tok[0] == 'X' {
+		if n, err := strconv.Atoi(tok[1:]); err == nil && n > 0 && n <= 8<<20 {
+			return strings.Repeat("x", n)
+		}
+	}
+	return tok
+}
+
+// c12BodyToken is the inverse on bodies (a body made only of 'x' is written X<len>).
+func c12BodyToken(body string) string {
+	if body != "" && strings.Trim(body, "x") == "" {
+		return fmt.Sprintf("X%d", len(body))
+	}
+	return body
 }
 
 func c12ParseOutcome(s string) (c12Out, error) {
@@ -47,15 +87,27 @@ func c12ParseOutcome(s string) (c12Out, error) {
 	case s == "terr":
 		return c12Out{Kind: "terr"}, nil
 	case strings.HasPrefix(s, "ub"):
-		n, err := strconv.Atoi(s[2:])
-		return c12Out{Kind: "ub", Code: n}, err
-	case strings.HasPrefix(s, "r"):
-		p := strings.Split(s[1:], ":")
-		if len(p) != 2 {
+		p := strings.Split(s[2:], ":")
+		if len(p) > 2 {
 			return c12Out{}, fmt.Errorf("bad outcome %q", s)
 		}
 		n, err := strconv.Atoi(p[0])
-		return c12Out{Kind: "reply", Code: n, Body: c12Unesc(p[1])}, err
+		o := c12Out{Kind: "ub", Code: n, Sent: -1}
+		if err == nil && len(p) == 2 {
+			o.Sent, err = strconv.Atoi(p[1])
+		}
+		return o, err
+	case strings.HasPrefix(s, "r"):
+		p := strings.Split(s[1:], ":")
+		if len(p) != 2 && len(p) != 3 {
+			return c12Out{}, fmt.Errorf("bad outcome %q", s)
+		}
+		n, err := strconv.Atoi(p[0])
+		o := c12Out{Kind: "reply", Code: n, Tok: p[1], Body: c12BodyFromToken(p[1]), Mode: "d"}
+		if len(p) == 3 {
+			o.Mode = p[2]
+		}
+		return o, err
 	}
 	return c12Out{}, fmt.Errorf("bad outcome %q", s)
 }
@@ -155,6 +207,9 @@ func (c *c12Client) Call(headers map[string]string, method string, u string, bod
 	case "reply":
 		return &http.Response{StatusCode: o.Code, Body: io.NopCloser(strings.NewReader(o.Body))}, nil
 	case "ub":
+		if o.Sent > 0 {
+			return &http.Response{StatusCode: o.Code, Body: io.NopCloser(io.MultiReader(strings.NewReader(strings.Repeat("x", o.Sent)), c12BadReader{}))}, nil
+		}
 		return &http.Response{StatusCode: o.Code, Body: c12BadReader{}}, nil
 	}
 	return nil, errors.New("scripted transport error")
@@ -180,6 +235,7 @@ func c12NewTarget() *c12Target {
 		t.mu.Lock()
 		t.posts = append(t.posts, c12Call{Sym: sym, Method: r.Method, Headers: hs, Body: string(body)})
 		o, have := t.outs[sym]
+		npost := len(t.posts)
 		t.mu.Unlock()
 		if !have || o.Kind == "terr" {
 			// transport error: drop the connection without a reply
@@ -191,18 +247,61 @@ func c12NewTarget() *c12Target {
 			return
 		}
 		if o.Kind == "ub" {
-			// unreadable body: promise more bytes than are sent, then close
+			// unreadable body: promise more bytes than are sent, then cut the connection mid-way
+			sent := "partial"
+			if o.Sent >= 0 {
+				sent = strings.Repeat("x", o.Sent)
+			}
 			if hj, ok := w.(http.Hijacker); ok {
 				if conn, buf, err := hj.Hijack(); err == nil {
-					fmt.Fprintf(buf, "HTTP/1.1 %d X\r\nContent-Type: text/plain\r\nContent-Length: 64\r\n\r\npartial", o.Code)
+					fmt.Fprintf(buf, "HTTP/1.1 %d X\r\nContent-Type: text/plain\r\nContent-Length: %d\r\n\r\n%s", o.Code, 2*len(sent)+64, sent)
 					_ = buf.Flush()
 					_ = conn.Close()
 				}
 			}
 			return
 		}
-		w.WriteHeader(o.Code)
-		_, _ = w.Write([]byte(o.Body))
+		// a readable reply, transmitted in one of several ways; all of them are the SAME outcome
+		reply := []byte(o.Body)
+		pause := time.Duration(10+(npost*7+len(reply))%21) * time.Millisecond
+		fl, _ := w.(http.Flusher)
+		w.Header().Set("Content-Type", "text/plain")
+		switch o.Mode {
+		case "l", "q":
+			w.Header().Set("Content-Length", strconv.Itoa(len(reply)))
+			w.WriteHeader(o.Code)
+			if o.Mode == "q" {
+				if fl != nil {
+					fl.Flush()
+				}
+				time.Sleep(pause)
+			}
+			_, _ = w.Write(reply)
+		case "p":
+			w.WriteHeader(o.Code)
+			if fl != nil {
+				fl.Flush()
+			}
+			time.Sleep(pause)
+			_, _ = w.Write(reply)
+		case "c":
+			w.WriteHeader(o.Code)
+			if fl != nil {
+				fl.Flush()
+			}
+			for i, parts := 0, 5; i < parts; i++ {
+				lo, hi := len(reply)*i/parts, len(reply)*(i+1)/parts
+				if hi > lo {
+					_, _ = w.Write(reply[lo:hi])
+					if fl != nil {
+						fl.Flush()
+					}
+				}
+			}
+		default:
+			w.WriteHeader(o.Code)
+			_, _ = w.Write(reply)
+		}
 	}))
 	return t
 }
@@ -300,7 +399,7 @@ func c12CanonStatus(s string) string {
 		return "-"
 	}
 	if g := c12StatusRe.FindStringSubmatch(s); g != nil {
-		return g[1] + ":" + g[2]
+		return g[1] + ":" + c12BodyToken(g[2])
 	}
 	return "err"
 }
